@@ -12,4 +12,3 @@ CONSTANTS
 INIT Init
 NEXT Next
 INVARIANT ImplInExpectedX
-INVARIANT AdapterOpsInContract
